@@ -173,6 +173,39 @@ def correspondence(ctx):
                         "assert type(v) is vector.%s and C.sig_of(v) == %r and [float(x) for x in C.stored(v)] == %r, repr(v)\n"
                         % (cname, meth, vals, C.VERIF, cname, tuple(sig), vals))})
     kinds += n_from
+    # Awkward constructors on inputs with MISSING values in single fields, jagged nesting and extra fields: every supplied value (and
+    # every None) is stored exactly where it was given, and vector.Array / vector.awk / vector.zip agree with each other
+    import awkward as ak
+    n_missing = 0
+    for names, extra in ((("x", "y"), ()), (("rho", "phi", "eta"), ("charge",)), (("px", "py", "pz", "E"), ("q", "flag")), (("pt", "phi", "theta", "mass"), ())):
+        for layout in ("flat", "jagged"):
+            recs = []
+            for i in range(5):
+                rec = {nm: (None if (i + j) % 4 == 1 else 0.5 + i + 0.25 * j) for j, nm in enumerate(names)}
+                rec.update({e_: (None if i == 3 else i) for e_ in extra})
+                recs.append(rec)
+            recs[2] = None if layout == "flat" else recs[2]          # a wholly missing record too
+            data = recs if layout == "flat" else [recs[:2], [], recs[2:]]
+            src = ak.Array(data)
+            want = {f: ak.to_list(src[f]) for f in list(names) + list(extra)}
+            built = {"vector.Array(list)": lambda: vector.Array(data), "vector.awk(ak.Array)": lambda: vector.awk(src),
+                     "vector.zip(fields)": lambda: vector.zip({f: src[f] for f in list(names) + list(extra)})}
+            for bname, f_ in built.items():
+                n_missing += 1
+                try:
+                    arr = f_()
+                    got = {}
+                    for f in list(names) + list(extra):
+                        g = C.MOMNAME_INV.get(f, f) if f not in ak.fields(arr) else f
+                        got[f] = ak.to_list(arr[g])
+                    ok = got == want and isinstance(arr, vector.backends.awkward.VectorAwkward)
+                    why = f"stores {({k: v for k, v in got.items() if v != want[k]})}, given {({k: want[k] for k, v in got.items() if v != want[k]})}"
+                except Exception as e:  # noqa: BLE001
+                    ok, why = False, f"raises {type(e).__name__}: {str(e)[:80]}"
+                if not ok:
+                    dis.append(f"{bname} on {layout} records {names}+{extra} with missing single fields: {why}"[:400])
+                    fails.append({"key": f"missing-values:{bname}", "what": dis[-1], "code": None})
+    kinds += n_missing
     kinds_dist = {}
     for a in reals:
         kinds_dist[a.split()[0]] = kinds_dist.get(a.split()[0], 0) + 1
